@@ -17,7 +17,8 @@ import numpy as _np
 from .core import Undecided
 from .ratfun import Rat, satom
 from .symex import (Interp, Hooks, Inst, Func, Bound, Builtin, Opaque, Rec,
-                    ClassV, TypeV, NPV, NI, PyRaise, is_scalar, to_rat)
+                    ClassV, TypeV, NPV, NI, ModuleV, PyRaise, is_scalar,
+                    to_rat)
 from .namodel import (NA, NAHooks, NAMixin, DT, na_of, as_dt, objarr, filled,
                       promote, scalar_dt)
 from .opalg import OpHooks, DUNDER
@@ -51,7 +52,10 @@ class NSpace(object):
     model_eq = True
 
     def __init__(self, shape, dt='float64', weight=None, exponent=2,
-                 name=None):
+                 name=None, cell_volume=None):
+        # `cell_volume` not None: a DiscretizedSpace-like space exposing
+        # that attribute (default weighting there: weight == cell_volume)
+        self.cell_volume = cell_volume
         self.shape = tuple(shape)
         self.dt = as_dt(dt)
         self.weight = Rat.const(1) if weight is None else weight
@@ -74,7 +78,8 @@ class NSpace(object):
         key = 'R' if real else 'C'
         if key not in self._twins:
             t = NSpace(self.shape, 'float64' if real else 'complex128',
-                       self.weight, self.exponent, self.name)
+                       self.weight, self.exponent, self.name,
+                       self.cell_volume)
             t._twins['C' if real else 'R'] = self
             self._twins[key] = t
         return self._twins[key]
@@ -163,6 +168,13 @@ class NPElem(object):
 
     def __len__(self):
         return len(self.parts)
+
+
+def _c(x):
+    if isinstance(x, int):
+        return x
+    r = to_rat(x)
+    return int(r.constant())
 
 
 def red_arr(a):
@@ -475,6 +487,8 @@ class SMHooks(NAHooks, OpHooks):
             return 'numpy'
         if name == 'default_order':
             return 'C'
+        if name == 'cell_volume' and sp.cell_volume is not None:
+            return sp.cell_volume
         if name in ('cell_volume', 'partition', 'grid', 'cell_sides'):
             raise PyRaise('AttributeError')
         return NotImplemented
@@ -647,8 +661,9 @@ class SMHooks(NAHooks, OpHooks):
             return f
 
         def g(*a, **k):
-            return f(*[x.data if isinstance(x, NElem) else x for x in a],
-                     **k)
+            un = lambda x: x.data if isinstance(x, NElem) else x
+            return f(*[un(x) for x in a], **{kk: un(v) for kk, v in
+                                            k.items()})
         return g
 
     def atom1(self, name):
@@ -668,6 +683,18 @@ class SMHooks(NAHooks, OpHooks):
         r = OpHooks.on_call(self, interp, f, args, kwargs, node)
         if r is not NotImplemented:
             return r
+        if isinstance(f, ModuleV) and f.name.endswith('isspmatrix'):
+            return False
+        if isinstance(f, Func) and f.name == 'tensor_space':
+            shape = args[0] if args else kwargs.get('shape')
+            if isinstance(shape, int):
+                shape = (shape,)
+            dt = kwargs.get('dtype', args[1] if len(args) > 1 else None)
+            w = kwargs.get('weighting')
+            if isinstance(w, Rec):
+                w = w.attrs.get('const', w.attrs.get('array'))
+            return NSpace(tuple(_c(x) for x in shape),
+                          'float64' if dt is None else dt, w)
         if isinstance(f, ClassV) and f.ci.name == 'ProductSpace':
             sp = list(args)
             if len(sp) == 2 and isinstance(sp[1], int):
